@@ -165,7 +165,7 @@ def partitions(tier, seed):
     q = tier == 'quick'
     parts = []
     for m in spec.METHODS:
-        parts.append(_method_part(m, 1 if q else 2, 3 if q else 5, 200 if q else 900))
+        parts.append(_method_part(m, 1 if q else 2, 3 if q else 5, 200 if q else 480))
     parts.append(Part('map_basic_properties',
                       [('prio', 'int'), ('dm', 'int'), ('ct', 'str'), ('ts', 'int'), ('probe', 'str'), ('present', 'bool')],
                       ['0 <= prio <= 255', '1 <= dm <= 2', 'len(ct) <= 1', 'ct <= "\\x7f"', '0 <= ts < 2**32', 'len(probe) <= 3'],
